@@ -1,9 +1,9 @@
 """C15  fn.asyncio() under an event loop matches the asynq result.
 
-Batch-free, tree-shaped programs (tasks, ConstFutures, None, non-futures, nested tuple/list/dict of any width and depth,
-instances of SUBCLASSES of tuple/list/dict, async_proxy functions returning a future / None / a container, raise of
-Exceptions and of BaseException-only errors, try/except Exception and try/except BaseException at every yield, return and
-asynq.result() of every kind of object - exception instances, falsy / unhashable / awaitable / future-like objects,
+Batch-free, tree-shaped programs (tasks, ConstFutures, ErrorFutures, lazy Futures, None, non-futures, nested tuple/list/dict of
+any width and depth, instances of SUBCLASSES of tuple/list/dict, async_proxy functions returning a future / None / a container,
+raise of Exceptions and of BaseException-only errors, try/except Exception and try/except BaseException at every yield, return
+and asynq.result() of every kind of object - exception instances, falsy / unhashable / awaitable / future-like objects,
 subclasses of the built-in containers -, plain synchronous calls) are interpreted on the REAL library in five ways:
   call    fn(args)                               value   fn.asynq(args).value()
   aio     `await fn.asyncio(args)` inside an observer coroutine (same contextvars context) under asyncio.run
@@ -16,16 +16,22 @@ for every run or one set shared by the five runs in a random order; first or sec
 model does not distinguish (usage flags): one constant object yielded again and again (`reuse`), one decorator object applied
 to many functions (`onedeco`), every run on a fresh thread (`thread`), bound wrappers used through copy.copy() (`copyb`),
 garbage collections between runs and at every resumption (`gc`).
-The Lean model (AsynqModel.Lib.Asyncio) runs the same program (correspondence, per-task projection of the logs) and the
-Lean observer `Asyncio.spec` judges the implementation's observations on their own: flag off before / after / on inside,
-siblings complete, synchronous calls refused, same outcome as fn(args) and the same start / deliveries at every yield / end
-of EVERY task as under fn(args) (when the asyncio run attempted no synchronous call), the run ends with the end of its root
-task carrying the outcome.  `spec` reads of a log only what the correspondence check compares (per-task sub-logs, first
-event; never the order of events of different tasks): CORR=ok implies SPEC = SPECM (C15_spec_respects_correspondence).  `spec` is proved of the model for every program that satisfies `Prog.safe` (no handler
-catches BaseException, or no BaseException-only error is raised) and `Prog.plainY` (no container-subclass yield, no
-async_proxy function returning a non-future) and `Prog.noDedupSync` (no plain synchronous call of a @deduplicate() function):
-C15_spec_holds_partial; for the rest the code as it is violates the property: C15_base_handler_counterexample,
-C15_container_subclass_counterexample, C15_proxy_value_counterexample, C15_dedup_sync_counterexample."""
+The Lean model (AsynqModel.Lib.Asyncio) runs the same program (correspondence, per-task form of the logs) and the Lean
+observer `Asyncio.specClauseP` judges the implementation's observations:
+  observation-only clauses (`Asyncio.spec`): flag off before / after / on inside, siblings complete, synchronous calls refused
+    with the RuntimeError and no sync_fn entered, same outcome as fn(args) and the same start / deliveries at every yield / end
+    of EVERY task as under fn(args) (when the asyncio run attempted no synchronous call), the run ends with the end of its root
+    task carrying the outcome;
+  program-aware clauses (`Asyncio.specObsP`): nothing of a refused callee runs (every event belongs to a task of `Prog.live`),
+    the explicit asyncio_fns entered and - for a run that attempted a synchronous call, which legitimately differs from fn(args)
+    from the refusal on - every event of every task are those of the model's run (exact).
+The observer reads of a log only what the correspondence check compares (per-task sub-logs, first event; never the order of
+events of different tasks): equal views give equal verdicts (C15_spec_respects_correspondence).  It is proved of the model for
+every program that satisfies `Prog.safe` (no handler catches BaseException, or no BaseException-only error is raised) and
+`Prog.plainY` (no container-subclass yield, no async_proxy function returning a non-future, no future other than a ConstFuture):
+C15_spec_holds_partial, C15_specP_holds_partial; for the rest the code as it is violates the property:
+C15_base_handler_counterexample, C15_container_subclass_counterexample, C15_proxy_value_counterexample,
+C15_other_future_resolved."""
 import hashlib
 import json
 import random
@@ -40,19 +46,15 @@ HEADLINE_THEOREMS = [
     "AsynqModel.Asyncio.C15_deliveries_agree_partial",
     "AsynqModel.Asyncio.C15_deliveries_agree_per_task_partial",
     "AsynqModel.Asyncio.C15_run_ends_with_outcome",
-    "AsynqModel.Asyncio.C15_no_result_escapes",
-    "AsynqModel.Asyncio.C15_mode_confined_nested",
-    "AsynqModel.Asyncio.C15_mode_untouched_by_asynq",
     "AsynqModel.Asyncio.C15_asyncio_run_good",
-    "AsynqModel.Asyncio.C15_asynq_run_good",
-    "AsynqModel.Asyncio.C15_first_failure_wins",
-    "AsynqModel.Asyncio.C15_shape",
-    "AsynqModel.Asyncio.C15_gather_all_ok",
-    "AsynqModel.Asyncio.C15_failure_is_an_element",
-    "AsynqModel.Asyncio.C15_spec_holds_partial",
-    "AsynqModel.Asyncio.C15_spec_respects_correspondence",
     "AsynqModel.Asyncio.C15_sync_fn_never_runs_under_asyncio",
-    "AsynqModel.Asyncio.C15_sync_refused_with_RuntimeError_partial",
+    "AsynqModel.Asyncio.C15_sync_refused_with_RuntimeError",
+    "AsynqModel.Asyncio.C15_refused_callee_never_runs",
+    "AsynqModel.Asyncio.C15_asynq_run_good",
+    "AsynqModel.Asyncio.C15_shape",
+    "AsynqModel.Asyncio.C15_spec_respects_correspondence",
+    "AsynqModel.Asyncio.C15_spec_holds_partial",
+    "AsynqModel.Asyncio.C15_specP_holds_partial",
 ]
 # where the code as it is violates the property, and the necessity of every hypothesis (machine-checked witnesses)
 COUNTEREXAMPLE_THEOREMS = [
@@ -61,12 +63,14 @@ COUNTEREXAMPLE_THEOREMS = [
     "AsynqModel.Asyncio.C15_base_handler_counterexample",
     "AsynqModel.Asyncio.C15_container_subclass_counterexample",
     "AsynqModel.Asyncio.C15_proxy_value_counterexample",
+    "AsynqModel.Asyncio.C15_other_future_resolved",
     "AsynqModel.Asyncio.C15_dedup_sync_refused",
     "AsynqModel.Asyncio.C15_noSync_necessary",
     "AsynqModel.Asyncio.C15_flag_off_necessary",
 ]
-# hold BY CONSTRUCTION of the model (one unfolding of a definition): they document how the model renders the code; their
-# content is the correspondence check, not their proofs.  Not headline claims.
+HEADLINE = HEADLINE_THEOREMS + COUNTEREXAMPLE_THEOREMS
+# hold BY CONSTRUCTION of the model (one unfolding of a definition / a list lemma about a definition): they document how the
+# model renders the code; their content is the correspondence check, not their proofs.  Not headline claims.
 BY_CONSTRUCTION_THEOREMS = [
     "AsynqModel.Asyncio.C15_mode_confined",
     "AsynqModel.Asyncio.C15_sync_refused",
@@ -75,15 +79,24 @@ BY_CONSTRUCTION_THEOREMS = [
     "AsynqModel.Asyncio.C15_gather_first_failure",
     "AsynqModel.Asyncio.C15_sync_allowed_by_asynq",
     "AsynqModel.Asyncio.C15_sync_fn_unused_by_asynq_and_asyncio",
+    "AsynqModel.Asyncio.C15_no_result_escapes",
+    "AsynqModel.Asyncio.C15_mode_confined_nested",
+    "AsynqModel.Asyncio.C15_mode_untouched_by_asynq",
+    "AsynqModel.Asyncio.C15_first_failure_wins",
+    "AsynqModel.Asyncio.C15_gather_all_ok",
+    "AsynqModel.Asyncio.C15_failure_is_an_element",
+    "AsynqModel.Asyncio.C15_live_excludes_callee",
 ]
-THEOREMS = HEADLINE_THEOREMS + COUNTEREXAMPLE_THEOREMS + BY_CONSTRUCTION_THEOREMS
+BY_CONSTRUCTION = BY_CONSTRUCTION_THEOREMS
+THEOREMS = HEADLINE + BY_CONSTRUCTION
 BUILDS = {"quick": ["py"], "thorough": ["py", "cy"]}
-RULE = ("corpus (18 minimised programs), a fixed family (every call kind x explicit asyncio_fn x 14 body shapes; every child "
+RULE = ("corpus (21 minimised programs), a fixed family (every call kind x explicit asyncio_fn x 14 body shapes; every child "
         "kind under a bare and a gathered yield; dict/list/tuple whose FIRST failure in structure order is the slowest with a "
         "slower success beside it; empty structures; synchronous calls of every kind; BaseException-only errors raised by every "
         "kind of child, first / second in structure order beside an ordinary failure, passing through an intermediate task; "
         "instances of subclasses of tuple / list / dict yielded bare, nested, empty, beside failing tasks; async_proxy functions "
-        "returning None / list / tuple / dict, bare and inside a list; every DECLARATION of a function - function / method / "
+        "returning None / list / tuple / dict, bare and inside a list; ErrorFutures and lazy Futures bare, in containers, beside "
+        "failing tasks, with and without handler; every DECLARATION of a function - function / method / "
         "classmethod / staticmethod / non-generator / @deduplicate(), with or without sync_fn=, with or without asyncio_fn=, "
         "reached through the instance or the class, positional or keyword arguments - as the callee of a plain synchronous call "
         "(at the root and inside a gathered child), as a child under a bare and a gathered yield and as the root; one constant "
@@ -96,7 +109,7 @@ RULE = ("corpus (18 minimised programs), a fixed family (every call kind x expli
         "ConstFutures and Nones yielded 2-4 times by the root and a child and by all five runs) and grammar-generated batch-free programs: 1-15 tasks, depth "
         "<= 5, yields of None / non-future / ConstFuture / proxy ConstFuture / child task / nested tuple-list-dict (0-4, "
         "sometimes 5-40 elements, 3 levels), in 1 program of 8 also container-subclass instances or proxy functions returning "
-        "None / a container, in 1 of 2 call sites declared with sync_fn= / as classmethod / staticmethod (callees of "
+        "None / a container, in 1 program of 25 ErrorFutures / lazy Futures among the leaves, in 1 of 2 call sites declared with sync_fn= / as classmethod / staticmethod (callees of "
         "synchronous calls more often) and @deduplicate() children, in 2 of 5 yields of constants only that are repeated by the "
         "next yield, raise / raiseB / re-raise / return / result() of plain or unusual objects, handler "
         "(except Exception or except BaseException) or no handler at every yield, plain synchronous calls (the malformed stream: "
@@ -119,27 +132,36 @@ TRUSTED = [
 ASSUMPTIONS = [
     "await x = run x to completion; the order in which sibling coroutines interleave is the event loop's business "
     "(logs are compared per task, never across tasks)",
-    "programs are batch-free trees: every yielded future is created in the yield (no shared tasks - a task object yielded "
-    "twice is 'cannot reuse already awaited coroutine' under asyncio -, no batch items, no ErrorFuture / lazy Future, which "
-    "resolve_awaitables does not know)",
+    "programs are batch-free trees: every yielded future is created in the yield, inside the running computation (no shared "
+    "tasks - a task object yielded twice is 'cannot reuse already awaited coroutine' under asyncio -, no batch items; no "
+    "AsyncTask made BEFORE fn.asyncio() was entered and passed in as an argument: under asyncio `.asynq()` gives coroutines, "
+    "so such an object can only come from outside the computation the property compares, and resolving it would mean "
+    "running the asynq scheduler inside the event loop - excluded, resolve_awaitables raises TypeError for it)",
     "hypotheses of the equivalence theorems (each with a machine-checked counterexample): Prog.safe (every handler is `except "
-    "Exception`, or no BaseException-only error is raised), Prog.plainY (no yielded instance of a subclass of tuple / list / "
-    "dict, no async_proxy function returning a non-future), and for statements about outcomes Prog.noSync or 'the asyncio run "
-    "logged no synchronous call' (refused by design); programs outside them ARE generated and reported (known findings)",
+    "Exception`, or no BaseException-only error is raised; sufficient, not a characterisation), Prog.plainY (no yielded "
+    "instance of a subclass of tuple / list / dict, no async_proxy function returning a non-future, no future other than a "
+    "ConstFuture - ErrorFuture, lazy Future - made in a yield), and for statements about outcomes Prog.noSync or 'the asyncio "
+    "run logged no synchronous call' (refused by design); programs outside them ARE generated and reported (findings)",
+    "Prog.validCalls (hypothesis of the theorems about refused synchronous calls; = valid_call below + no `pure` callee of a "
+    "plain synchronous call): the Lean type `Call` has terms the library gives another meaning to and the harness never "
+    "sends - `pure(args)` is not a synchronous call (it returns the task; under asyncio an un-awaited coroutine, nothing is "
+    "refused), @async_proxy(sync_fn=f) is not an @asynq() function (AsyncAndSyncPairProxyDecorator.__call__ runs f whatever "
+    "the flag), asyncio_fn= does not exist for pure / @deduplicate() declarations.  The hypothesis is not used by the proofs "
+    "(the model refuses every term); it delimits where the model is tied to the code",
     "BaseException-only errors are instances of a user-defined subclass of BaseException (KeyboardInterrupt, SystemExit and "
     "asyncio.CancelledError, which the event loop itself interprets, are not raised; they do occur as returned VALUES)",
     "an explicit asyncio_fn is a faithful asyncio version of the function (here: it logs and awaits the undecorated "
     "function's .asyncio())",
-    "hypothesis of the statements about HOW a synchronous call is refused: Prog.noDedupSync (no plain synchronous call of a "
-    "@deduplicate() function; machine-checked counterexample C15_dedup_sync_counterexample; generated and reported)",
     "asynq.result(x) of a future-like x asserts on both engines alike and is not generated; allow_sync_call=True (the "
     "documented opt-out of the refusal) is not generated",
     "the ROOT function of a case is declared without sync_fn (with one, fn(args) IS sync_fn(args) by definition - comparing "
     "fn.asyncio(args) with it is not what the property states); every other call site may be; a sync_fn= is a faithful "
     "synchronous version of the function (here: it logs and makes the plain synchronous call of the function declared "
     "without sync_fn)",
-    "@async_proxy(sync_fn=f) is not an @asynq() function: AsyncAndSyncPairProxyDecorator.__call__ runs f whatever the flag "
-    "(not generated; noted in DESIGN.md 5 C15)",
+    "the program-aware clauses `asyncio-fn` and `sync-run-deliveries` of the observer compare with the model's run (exact): "
+    "they hold of the model by reflexivity; for a run that attempted a synchronous call, 'shape / first failure / try-except' "
+    "are therefore judged through the model (correspondence), the model's run being described by "
+    "C15_deliveries_agree_partial (prefix of fn(args) up to the first refusal) and C15_asyncio_run_good",
 ]
 CASE_TIMEOUT = 30
 CONVS = ["call", "value", "aio", "aiorun", "aiotask"]
@@ -156,6 +178,8 @@ AFN_KINDS = ("gen", "meth", "proxy", "plain")
 #           | ["dict", [key, ys]...]
 #           | ["tupS", ys...] | ["lstS", ys...] | ["dictS", [key, ys]...]   the same containers as instances of a SUBCLASS
 #           | ["pval", ys]   proxy.asynq() of an @async_proxy() function that returns the object ys (None or a container)
+#           | ["efut", e]    ErrorFuture(user error e)      | ["lfut", v]   Future(lambda: v)  (a lazy future)
+#                            (futures that are not ConstFutures; Lean: Ys.ofut)
 #   call := [kind, afn(0/1), label] | [kind, afn(0/1), label, var]
 #           var = sfn + 2 * bind: HOW the function of the call site is declared
 #             sfn  = 1: with `sync_fn=f` (kinds gen / meth / plain; never the root call): f logs `sfn` and makes the plain
@@ -205,6 +229,10 @@ YLD = ("yld", "yldB")
 SEQ_TAGS = ("tup", "lst", "tupS", "lstS")
 MAP_TAGS = ("dict", "dictS")
 SUB_TAGS = ("tupS", "lstS", "dictS")          # instances of strict subclasses of tuple / list / dict
+OFUT_TAGS = ("efut", "lfut")                  # futures that are not ConstFutures: ErrorFuture, lazy Future
+# tags of yielded structures inside an OPEN finding (harness/checks/corecommon.py filters SUB_TAGS and "pval" by name; the
+# OFUT_TAGS are produced by `family_other_futures` and `gen_case(ofut=True)` only, which corecommon does not call)
+OPEN_FINDING_TAGS = SUB_TAGS + ("pval",) + OFUT_TAGS
 CONTAINER_TAGS = SEQ_TAGS + MAP_TAGS
 
 
@@ -302,6 +330,7 @@ class Gen(object):
         self.p_bh = 0.0           # probability that a handler is `except BaseException`
         self.p_sub = 0.0          # probability that a yielded container is an instance of a subclass
         self.p_pval = 0.0         # probability that a leaf is an async_proxy call returning None / a container
+        self.p_ofut = 0.0         # probability that a leaf is an ErrorFuture / a lazy Future
         self.p_var = 0.0          # probability that a call site uses an unusual declaration (sync_fn= pair, classmethod, ...)
         self.p_again = 0.0        # probability that a yield is of constants only and is repeated by the next yield
         self.dsync = False        # may the callee of a plain synchronous call be a @deduplicate() function (a known divergence)
@@ -409,6 +438,8 @@ class Gen(object):
             if shape == "dict":
                 return ["pval", ["dict"] + [[k, e] for k, e in zip(rng.sample(range(20), len(els)), els)]]
             return ["pval", [shape] + els]
+        if self.p_ofut and rng.random() < self.p_ofut:
+            return ["efut", rng.randint(1, 5)] if rng.random() < 0.6 else ["lfut", rng.randint(0, 50)]
         r = rng.random()
         if r < 0.07:
             return "none"
@@ -429,12 +460,14 @@ class Gen(object):
 # generate programs in which a handler that catches BaseException meets a BaseException-only error of an awaited child:
 # fn(args) runs the handler, fn.asyncio(args) never delivers the error to the body (theorem C15_base_handler_counterexample)
 GEN_BASE_DEFECT = True
-# generate plain synchronous calls of @deduplicate() functions: under asyncio they are refused with a TypeError raised while
-# the RuntimeError's message is built (theorem C15_dedup_sync_counterexample)
+# generate plain synchronous calls of @deduplicate() functions (refused with the RuntimeError like any other since /repo
+# 6bd88f6: theorem C15_dedup_sync_refused)
 GEN_DEDUP_SYNC = True
 
 
-def gen_case(rng, budget=None):
+def gen_case(rng, budget=None, ofut=False):
+    """`ofut`: ErrorFutures / lazy Futures among the leaves (finding non-const-future-yield-rejected-by-asyncio); only `plan`
+    asks for them (checks/corecommon.py draws its asyncio-mode family from gen_case(rng) and filters open findings by tag)"""
     budget = budget if budget is not None else rng.choice([1, 2, 3, 4, 6, 8, 10, 14])
     g = Gen(rng, budget, p_exotic=rng.choice([0.0, 0.0, 0.1, 0.3, 0.6]), p_wide=rng.choice([0.0, 0.0, 0.0, 0.05, 0.3]))
     # BaseException-only errors with `except Exception` handlers (both engines let them through to the caller), handlers that
@@ -454,6 +487,10 @@ def gen_case(rng, budget=None):
     # declarations (sync_fn= pairs, classmethod / staticmethod, @deduplicate()) and repeated yields of one constant object
     g.p_var = rng.choice([0.0, 0.0, 0.15, 0.5])
     g.p_again = rng.choice([0.0, 0.0, 0.0, 0.1, 0.3])
+    if ofut:
+        # one divergence per program (see `signature`)
+        g.p_base = g.p_bh = g.p_sub = g.p_pval = 0.0
+        g.p_ofut = rng.choice([0.1, 0.3])
     body = g.prog(0, rng.randint(1, 4), False, p_res, p_sync)
     rng2 = random.Random(rng.random())
     if has_yield(body):
@@ -611,6 +648,24 @@ def family():
         # ... and where it meets a BaseException-only error: the engines differ (C15_base_handler_counterexample)
         cases.append({"top": [["gen", 0, 0], ["yldB", ["task", ["gen", 0, 1], ["raiseB", 1]], ["ret", 1], ["ret", 2]]]})
         cases.append({"top": [["gen", 0, 0], ["yldB", ["lst", ["task", ["gen", 0, 1], ["raiseB", 1]], ["const", 2]], ["ret", 1], ["reraise"]]]})
+    return cases
+
+
+def family_other_futures():
+    """futures that are not ConstFutures - ErrorFuture(e), the lazy Future(lambda: v) - made in a yield: `unwrap` (asynq) calls
+    `.value()`, resolve_awaitables knows ConstFuture only and raises TypeError (C15_other_future_resolved; finding
+    non-const-future-yield-rejected-by-asyncio).  Kept apart from `family()`, which checks/corecommon.py reuses for C01-C03."""
+    cases = []
+    t5 = ["task", ["gen", 0, 1], ["ret", 5]]
+    f2 = ["task", ["meth", 0, 2], ["raise", 2]]
+    for y in (["efut", 1], ["lfut", 7], ["lst", ["efut", 1], t5], ["tup", t5, ["lfut", 7]], ["dict", [3, ["efut", 2]], [1, f2]],
+              ["lst", f2, ["efut", 1]], ["lst", ["lfut", 3], ["const", 4], "none"], ["tup", ["tup", ["efut", 3]]]):
+        for h in (["reraise"], ["ret", 2], ["yld", t5, ["ret", 3], ["reraise"]]):
+            cases.append({"top": [["gen", 0, 0], ["yld", y, ["ret", 1], h]]})
+    for kind, afn in (("meth", 1), ("pure", 0), ("proxy", 0), ("dedup", 0)):
+        cases.append({"top": [[kind, afn, 0], ["yld", ["efut", 1], ["ret", 1], ["ret", 2]]]})
+        cases.append({"top": [["gen", 0, 0], ["yld", ["lst", ["task", [kind, afn, 1], ["yld", ["lfut", 6], ["ret", 4], ["reraise"]]]],
+                                              ["ret", 1], ["ret", 2]]]})
     return cases
 
 
@@ -850,13 +905,15 @@ def corpus():
 def plan(tier, seed):
     rng = random.Random(seed * 1000003 + 15)
     n = 5000 if tier == "quick" else 50000
-    fixed = family() + value_family()
+    fixed = family() + value_family() + family_other_futures()
     rng_u = random.Random(seed * 1000003 + 17)
     for c in fixed:
         usage(c, rng_u)
     cases = corpus() + fixed
     cases += size_family(tier, random.Random(seed * 1000003 + 16))
     cases += [gen_case(rng) for _ in range(n)]
+    rng_o = random.Random(seed * 1000003 + 18)
+    cases += [gen_case(rng_o, ofut=True) for _ in range(n // 25)]
     return cases
 
 
@@ -1105,7 +1162,9 @@ DIVERGENCE_CLAUSES = ("fail:equiv", "fail:deliveries")
 
 def signature(case, v):
     clause = v.get("spec", "ok")
-    if clause in DIVERGENCE_CLAUSES:
+    # the model mirrors the open findings branch for branch, so a case inside one has CORR=ok; a spec failure that comes WITH a
+    # correspondence difference is something else and keeps the name of its clause (audit 2, N8)
+    if clause in DIVERGENCE_CLAUSES and v.get("corr", "ok") == "ok":
         p = expand(case)[1]
         if has_base_handler_and_raise(p):
             # a BaseException-only error of an awaited child is not delivered to the body by convert_asynq_to_async
@@ -1117,9 +1176,12 @@ def signature(case, v):
         if "pval" in tags:
             # AsyncProxyDecorator.asyncio (unwrap_coroutine) awaits whatever the function returned unless it is a ConstFuture
             return "async-proxy-non-future-result-not-resolved"
+        if tags & set(OFUT_TAGS):
+            # resolve_awaitables knows ConstFuture only: an ErrorFuture / a lazy Future at a yield is a TypeError under asyncio
+            return "non-const-future-yield-rejected-by-asyncio"
     if clause == "fail:sync-refused" and has_dedup_sync(expand(case)[1]):
-        # AsyncDecorator.__call__ builds its RuntimeError message with inspect.getsourcefile(self.fn); self.fn of a
-        # DeduplicateDecorator is a decorator object: TypeError instead of the RuntimeError
+        # (repaired in /repo 6bd88f6; the signature of the former finding is kept) AsyncDecorator.__call__ built its RuntimeError
+        # message with inspect.getsourcefile(self.fn); self.fn of a DeduplicateDecorator is a decorator object: TypeError
         return "sync-call-of-deduplicated-function-raises-TypeError-in-asyncio-mode"
     if clause == "fail:result-escapes" and has_res(expand(case)[1]):
         # AsyncTaskResult leaves .asyncio() as an exception (repaired in /repo; the signature of the former finding is kept)
@@ -1311,8 +1373,6 @@ class Harness(object):
         self.copyb = bool(opts.get("copyb"))
         self.gc = bool(opts.get("gc"))
         self.consts = {}          # reuse: the ONE object of every constant structure
-        import types
-        self.async_call_is_python = isinstance(getattr(asynq.async_call, "fn", None), types.FunctionType)
         Harness._serial[0] += 1
         self.serial = Harness._serial[0]
         # onedeco: ONE decorator object applied to every function that is declared without arguments
@@ -1606,10 +1666,9 @@ class Harness(object):
         fn, args, kwargs = self.target(c, p)
         if c[0] == "pure":
             return fn(*args, **kwargs).value()
-        if c[2] % 5 == 3 and c[0] != "dedup" and not call_var(c) % 2 and self.async_call_is_python:
-            # the plain synchronous call of asynq.async_call (an @async_proxy function of the library): async_call(fn, args).
-            # Not on a compiled build: there the refusal of async_call itself raises the TypeError of inspect.getsourcefile(a
-            # Cython function) - the defect the model renders for @deduplicate() functions (`refusal`); the model knows no builds
+        if c[2] % 5 == 3 and c[0] != "dedup" and not call_var(c) % 2:
+            # the plain synchronous call of asynq.async_call (an @async_proxy function of the library): async_call(fn, args)
+            # - on every build (since /repo 6bd88f6 the refusal of a compiled async_call is the RuntimeError too)
             return self.asynq.async_call(fn, *args, **kwargs)
         return fn(*args, **kwargs)
 
@@ -1644,6 +1703,12 @@ class Harness(object):
             return self.asynq.ConstFuture(y[1])
         if tag == "pconst":
             return self.pconst_fn.asynq(y[1])
+        if tag == "efut":
+            from asynq.futures import ErrorFuture
+            return ErrorFuture(self.get_err(y[1]))
+        if tag == "lfut":
+            from asynq.futures import Future
+            return Future(lambda v=y[1]: v)
         if tag == "task":
             (cond if in_cond else labels).append(y[1][2])
             return self.make(y[1], y[2])
